@@ -8,6 +8,7 @@ import gmpy2
 from pv import art
 from pv import checks
 from pv import gen
+from pv import shim
 
 
 def _mk(aid, n, cls, attrs, **meta):
@@ -362,3 +363,89 @@ def pm1_cover_key(rng, aid, bits, kind, block):
       break
   return _mk(aid, p * q, 'pm1', {'family': 'pm1', 'shared_log2': sm.bit_length() - 1, 'smooth_p': True, 'smooth_q': False, 'bits': (p * q).bit_length()},
              p=p, q=q, block=[kind, block])
+
+
+def lhw_slow_starter(rng, aid, bits=1024, tries=1500):
+  """A product of two primes of Hamming weight 24..32 on which the best-first search of CheckLowHammingWeight starts slowly: with
+  maxsteps = cutoff = 2500 (both documented parameters) the function does not yet call it weak.  About one key in 300; such keys are
+  in the documented family (both weights <= 32) all the same."""
+  shim.install()
+  from paranoid_crypto.lib import rsa_util
+  L = bits // 2
+  for _ in range(tries):
+    h1, h2 = rng.randint(24, 32), rng.randint(24, 32)
+    p, q = hamming_prime(rng, L, h1), hamming_prime(rng, L, h2)
+    n = p * q
+    try:
+      weak_, _ = rsa_util.CheckLowHammingWeight(gmpy2.mpz(n), 2500, 2500)
+    except Exception:  # pylint: disable=broad-except
+      weak_ = True
+    if not weak_:
+      return _mk(aid, n, 'lhw', {'family': 'lhw', 'h1': bin(p).count('1'), 'h2': bin(q).count('1'), 'bits': n.bit_length()}, p=p, q=q, slow=True)
+  return None
+
+
+_DEFAULT_M = None
+
+
+def default_pollard_product():
+  """The documented default product of CheckPollardpm1, rebuilt from its description: every prime below 2^20, the first 150 of them
+  raised to the largest power not above 2^64."""
+  global _DEFAULT_M
+  if _DEFAULT_M is None:
+    m = gmpy2.mpz(1)
+    for i, r in enumerate(_small_primes()):
+      e = 1
+      if i < 150:
+        while r ** (e + 1) <= 2 ** 64:
+          e += 1
+      m *= r ** e
+    _DEFAULT_M = m
+  return _DEFAULT_M
+
+
+def pm1_power_key(rng, aid, bits, kind):
+  """The smooth factor shared by p - 1 and q - 1 carries a prime power the default product does not contain (r^3 for a prime r > 863,
+  or 2^130): p - 1 still divides (n - 1) * product, because n - 1 is a multiple of the shared factor - the reason the base of the
+  method is 2^(n-1)."""
+  L = bits // 2
+  pr = _small_primes()
+  r = rng.choice(pr[200:])
+  g = {'r3': 2 ** 40 * r ** 3, 'two130': 2 ** 130, 'r2': 2 ** 50 * r ** 2}[kind]
+  tail = [x for x in pr[150:] if x != r]
+  p = None
+  for _ in range(20000):
+    k, mine = 1, set()
+    while (g * k).bit_length() < L - 21:
+      x = rng.choice(tail)
+      if x not in mine:
+        mine.add(x)
+        k *= x
+    for x in (rng.choice(pr[1:150]) for _ in range(40)):
+      v = g * k * x + 1
+      if v.bit_length() == L and gmpy2.is_prime(v):
+        p = int(v)
+        break
+    if p:
+      break
+  q = None
+  for _ in range(200000):
+    t = rng.getrandbits(L - g.bit_length()) | (1 << (L - g.bit_length() - 1)) | 1
+    v = g * t + 1
+    if v.bit_length() == L and gmpy2.is_prime(v):
+      q = int(v)
+      break
+  if p is None or q is None:
+    return None
+  n = p * q
+  M = default_pollard_product()
+  gg = int(gmpy2.gcd(p - 1, q - 1))
+  sm = 1
+  for x in pr:
+    while gg % x == 0:
+      gg //= x
+      sm *= x
+    if gg == 1:
+      break
+  return _mk(aid, n, 'pm1', {'family': 'pm1', 'shared_log2': sm.bit_length() - 1, 'smooth_p': bool(((n - 1) * M) % (p - 1) == 0),
+                             'smooth_q': bool(((n - 1) * M) % (q - 1) == 0), 'bits': n.bit_length()}, p=p, q=q, power_kind=kind)
